@@ -84,6 +84,7 @@ def resultJson : Option StartResult → Json
 def runStartup (j : Json) : Except String Json := do
   let prog ← (← jarr j "prog").mapM specOfJson
   let trace ← (← jarr j "trace").mapM labOfJson
+  if !wfProg prog then throw "startup program is not a well-formed flattened tree"
   let s0 := SSt.init prog (jboolD j "timeout" true)
   match accept s0 trace 0 with
   | .error (n, _) =>
